@@ -374,3 +374,107 @@ def listeners_are_a_private_copy(ctx):
     connections not yet served and their stream no longer reconstructs the cache)"""
     from sa.rules import c08
     c08.listener_sources(ctx)
+
+
+def _truth_polarity(test):
+    """(source of the core expression, negated?) for a plain truth test `x` / `not x`"""
+    neg = False
+    while isinstance(test, ast.UnaryOp) and isinstance(test.op, ast.Not):
+        neg = not neg
+        test = test.operand
+    return src(test), neg
+
+
+@rule('C05.R5c', min_instances=4)
+def update_message_follows_the_error_state(ctx):
+    """make_update: on the side where the cache entry holds a read error the message is the error update
+    (error_update, [class name, text, qualifiers]); on the other side it is the value update with the exported cached value;
+    both are complete triples with the specifier '<module>:<exported name>' (polarity of the test included)"""
+    m = ctx.m
+    mu = m.func('frappy.protocol.dispatcher.make_update')
+    ctx.analysed(mu)
+    cfg = CFG(mu.node, m, mu.module)
+    p = mu.node.args.args[1].arg
+    tests = [t for t in cfg.nodes if t.kind == 'test' and _truth_polarity(t.ast)[0] == f'{p}.readerror']
+    rets = [n for n in body_walk(mu.node) if isinstance(n, ast.Return)]
+    if not tests or not rets:
+        raise AnchorMissing('test of pobj.readerror / returns not found in make_update', violation=f'{mu.qualname}:error state selects the message kind')
+    t = tests[0]
+    neg = _truth_polarity(t.ast)[1]
+    err_side = cfg.reach([t.id], labels={'F' if neg else 'T'}, avoid=[t.id])
+    val_side = cfg.reach([t.id], labels={'T' if neg else 'F'}, avoid=[t.id])
+    seen = {'error': 0, 'value': 0}
+    for r in rets:
+        v = r.value
+        ids = set(cfg.ids(r))
+        if not (isinstance(v, ast.Tuple) and len(v.elts) == 3):
+            ctx.bad(f'{mu.qualname}:returns a message triple', r, f'`return {src(v) if v is not None else ""}` is not an (action, specifier, data) triple', mu)
+            continue
+        action, spec, data = v.elts
+        is_err = 'ERRORPREFIX' in src(action)
+        kind = 'error' if is_err else 'value'
+        seen[kind] += 1
+        side_ok = (ids <= err_side and not (ids & val_side - err_side)) if is_err else (ids & val_side and not (ids <= err_side and not ids & val_side))
+        ctx.check(bool(side_ok), f'{mu.qualname}:{kind} update on the {kind} side of the readerror test', r, f'`{src(t.ast)}` selects it',
+                  f'the {kind} update is built on the side of `{src(t.ast)}` where the cache entry holds ' + ('no error' if is_err else 'an error') +
+                  ': an error state is announced as a value update with the stale value (and a good value as an error update)', mu)
+        ctx.check('EVENTREPLY' in src(action), f'{mu.qualname}:{kind} update action', r, src(action), f'action `{src(action)}` is not built from EVENTREPLY', mu)
+        ok_spec = isinstance(spec, ast.JoinedStr) and f'{p}.export' in src(spec) and mu.node.args.args[0].arg in src(spec)
+        ctx.check(ok_spec, f'{mu.qualname}:{kind} update specifier', r, src(spec), f'specifier `{src(spec)}` is not <module>:<exported name>', mu)
+        d = src(data)
+        if is_err:
+            ctx.check(f'{p}.readerror.name' in d and f'str({p}.readerror)' in d, f'{mu.qualname}:error update data', r, d,
+                      f'`{d}` does not carry the error class name and text of the cached error', mu)
+        else:
+            ctx.check(f'{p}.export_value()' in d, f'{mu.qualname}:value update data', r, d, f'`{d}` does not carry the exported cached value', mu)
+    ctx.check(seen['error'] >= 1 and seen['value'] >= 1, f'{mu.qualname}:error state selects the message kind', mu.node, 'one error update and one value update',
+              f'make_update builds {seen}: one of the two message kinds is missing', mu)
+
+
+@rule('C05.R2c', min_instances=2)
+def cached_error_is_a_secop_error(ctx):
+    """the funnel stores into pobj.readerror only None or the result of secop_error(...): make_update reads
+    .name of it - a raw exception there makes every later update of the parameter raise inside the notification, the stream
+    stops following the cache; and the datatype conversion of an assigned value runs on the `validate` side"""
+    m = ctx.m
+    f = roles.cache_funnel(m)
+    ctx.analysed(f)
+    cfg = CFG(f.node, m, f.module)
+    rd = ReachingDefs(cfg, f.node)
+    stores = [(t, v, s) for t, v, s in attr_stores(f.node) if t.attr == 'readerror']
+    if not stores:
+        raise AnchorMissing('store to .readerror not found in the cache funnel')
+    for t, v, s in stores:
+        if isinstance(v, ast.Constant) and v.value is None:
+            ctx.ok(f'{f.qualname}:stored error is a SECoP error', s, 'None', f)
+            continue
+        if not isinstance(v, ast.Name):
+            ok = isinstance(v, ast.Call) and dotted(v.func) == 'secop_error'
+            ctx.check(ok, f'{f.qualname}:stored error is a SECoP error', s, 'secop_error(...)', f'`{src(s)}` stores an unconverted error', f)
+            continue
+        # `err` is a local: on every path on which it is truthy, the last assignment before the store is `err = secop_error(...)`
+        name = v.id
+        sids = cfg.node_of(s)
+        conv = [i for c in calls_in(f.node) if dotted(c.func) == 'secop_error' for a in [enclosing_stmt(c)]
+                if isinstance(a, ast.Assign) and any(isinstance(tg, ast.Name) and tg.id == name for tg in a.targets) for i in cfg.node_of(a)]
+        tests = [tt for tt in cfg.nodes if tt.kind == 'test' and _truth_polarity(tt.ast)[0] == name and all(cfg.dominates([tt.id], i) for i in sids)]
+        ok = False
+        for tt in tests:
+            truthy = [b_ for b_, lab in cfg.succ[tt.id] if lab == ('F' if _truth_polarity(tt.ast)[1] else 'T')]
+            others = [i for x in body_walk(f.node) if isinstance(x, ast.Assign) and any(isinstance(tg, ast.Name) and tg.id == name for tg in x.targets)
+                      for i in cfg.node_of(x) if i not in conv]
+            after = cfg.reach([tt.id], avoid=[tt.id])
+            if conv and cfg.all_paths_pass(truthy, sids, conv, exc=False) and not (set(others) & after):
+                ok = True
+        ctx.check(ok, f'{f.qualname}:stored error is a SECoP error', s, f'on the `if {name}:` side the error passes secop_error() before it is stored',
+                  f'`{src(s)}`: a path on which `{name}` is set reaches the store without `{name} = secop_error({name})` - make_update reads `.name` of the '
+                  'cached error, a raw exception raises AttributeError inside the notification and the update (and every later one) is lost', f)
+    conv = [c for c in calls_in(f.node) if call_attr(c) in ('datatype', 'validate') or (isinstance(c.func, ast.Attribute) and c.func.attr == 'datatype')]
+    vt = [tt for tt in cfg.nodes if tt.kind == 'test' and _truth_polarity(tt.ast)[0] == 'validate']
+    for tt in vt:
+        neg = _truth_polarity(tt.ast)[1]
+        on = cfg.reach([tt.id], labels={'F' if neg else 'T'}, avoid=[tt.id])
+        off = cfg.reach([tt.id], labels={'T' if neg else 'F'}, avoid=[tt.id])
+        ids = {i for c in conv for i in cfg.node_of(c)}
+        ctx.check(bool(ids) and ids <= on and not (ids & off - on), f'{f.qualname}:conversion on the validate side', tt.ast, 'datatype(value) runs iff validate',
+                  f'`{src(tt.ast)}`: the datatype conversion runs on the side where validate is false: assigned values enter the cache unchecked', f)
